@@ -311,7 +311,8 @@ def _get_bus_id_caller(bus):
 
     """
 
-    if np.array(bus.idx.v).dtype == object:
+    # non-numeric idx: mixed lists give `object`, all-string lists give a unicode dtype
+    if np.array(bus.idx.v).dtype.kind in 'OUS':
         return lambda x: np.array(bus.idx2uid(x)) + 1
     else:
         return lambda x: x
